@@ -2,6 +2,7 @@ package main
 
 import (
 	"fmt"
+	"os"
 	"sort"
 	"strings"
 
@@ -36,14 +37,26 @@ func (v vclock) join(o vclock) {
 	}
 }
 
+type lockHeld struct {
+	m      *value
+	shared bool // held through RLock
+}
+
 type accessEv struct {
 	obj   *mapv
+	cell  *value // heap cell (non-map accesses)
 	write bool
 	tid   int
+	clock int // the thread's own clock component at the access
 	task  int // index into e.tasks (-1: setup / no task)
 	vc    vclock
-	locks []*value // mutexes held (sorted by first acquisition)
+	locks []lockHeld // mutexes held (in order of acquisition)
 	site  string
+}
+
+type cellInfo struct {
+	w  *accessEv
+	rs []*accessEv
 }
 
 type taskInfo struct {
@@ -57,8 +70,11 @@ type raceState struct {
 	nextTid int
 	tidOf   map[*gthread]int
 	vcs     map[int]vclock
-	locks   map[int][]*value
-	mutexVC map[*value]vclock
+	locks   map[int][]lockHeld
+	cells   map[*value]*cellInfo
+	cand    map[string][2]*accessEv
+	mutexVC map[*value]vclock // released by exclusive holders
+	mutexRVC map[*value]vclock // released by shared (RLock) holders: only an exclusive acquire is ordered after them
 	events  []accessEv
 	seen    map[string]bool
 	tasks   []taskInfo
@@ -67,7 +83,7 @@ type raceState struct {
 }
 
 func (e *Engine) raceReset() {
-	e.race = &raceState{on: e.sh.traceAccess, tidOf: map[*gthread]int{}, vcs: map[int]vclock{}, locks: map[int][]*value{}, mutexVC: map[*value]vclock{}, seen: map[string]bool{}, curTask: -1, taskTid: -1, nextTid: 1}
+	e.race = &raceState{on: e.sh.traceAccess, tidOf: map[*gthread]int{}, vcs: map[int]vclock{}, locks: map[int][]lockHeld{}, cells: map[*value]*cellInfo{}, cand: map[string][2]*accessEv{}, mutexVC: map[*value]vclock{}, mutexRVC: map[*value]vclock{}, seen: map[string]bool{}, curTask: -1, taskTid: -1, nextTid: 1}
 	e.race.vcs[0] = vclock{0: 1}
 }
 
@@ -115,7 +131,9 @@ func (e *Engine) raceSync(from, to int) {
 	r.vcs[to][to]++
 }
 
-func (e *Engine) raceLock(m *value) {
+func (e *Engine) raceLock(m *value) { e.raceLockMode(m, false) }
+
+func (e *Engine) raceLockMode(m *value, shared bool) {
 	r := e.race
 	if !r.on {
 		return
@@ -124,7 +142,12 @@ func (e *Engine) raceLock(m *value) {
 	if vc, ok := r.mutexVC[m]; ok {
 		r.vcs[t].join(vc)
 	}
-	r.locks[t] = append(r.locks[t], m)
+	if !shared {
+		if vc, ok := r.mutexRVC[m]; ok {
+			r.vcs[t].join(vc)
+		}
+	}
+	r.locks[t] = append(append([]lockHeld{}, r.locks[t]...), lockHeld{m, shared})
 }
 
 func (e *Engine) raceUnlock(m *value) {
@@ -134,13 +157,22 @@ func (e *Engine) raceUnlock(m *value) {
 	}
 	t := e.curTid()
 	ls := r.locks[t]
+	wasShared := false
 	for i := len(ls) - 1; i >= 0; i-- {
-		if ls[i] == m {
-			r.locks[t] = append(append([]*value{}, ls[:i]...), ls[i+1:]...)
+		if ls[i].m == m {
+			wasShared = ls[i].shared
+			r.locks[t] = append(append([]lockHeld{}, ls[:i]...), ls[i+1:]...)
 			break
 		}
 	}
-	r.mutexVC[m] = r.vcs[t].copy()
+	if wasShared {
+		if r.mutexRVC[m] == nil {
+			r.mutexRVC[m] = vclock{}
+		}
+		r.mutexRVC[m].join(r.vcs[t])
+	} else {
+		r.mutexVC[m] = r.vcs[t].copy()
+	}
 	r.vcs[t][t]++
 }
 
@@ -162,10 +194,77 @@ func (e *Engine) raceAccess(m *mapv, write bool) {
 		return
 	}
 	r.seen[key] = true
-	r.events = append(r.events, accessEv{obj: m, write: write, tid: t, task: r.curTask, vc: r.vcs[t].copy(), locks: append([]*value{}, r.locks[t]...), site: site})
+	r.events = append(r.events, accessEv{obj: m, write: write, tid: t, clock: r.vcs[t][t], task: r.curTask, vc: r.vcs[t].copy(), locks: r.locks[t], site: site})
 }
 
 func hb(a, b *accessEv) bool { return a.vc[a.tid] <= b.vc[a.tid] }
+
+func (e *Engine) moduleSite() string {
+	for fr := e.curFrame; fr != nil; fr = fr.caller {
+		if inModule(fr.fn) && !(fr.fn.Pkg != nil && interpretPkgs[fr.fn.Pkg.Pkg.Path()]) {
+			return fr.fn.String()
+		}
+	}
+	return "?"
+}
+
+// raceCell records a read or write of a heap cell (FastTrack-style: the last write and the reads since).
+// Conflicting accesses that are not ordered by happens-before become candidates checked at the path's end.
+func (e *Engine) raceCell(p *value, write bool) {
+	r := e.race
+	if r == nil || !r.on || r.nextTid <= 1 || p == nil {
+		return
+	}
+	t := e.curTid()
+	vc := r.vcs[t]
+	if vc == nil {
+		return
+	}
+	info := r.cells[p]
+	if info == nil {
+		info = &cellInfo{}
+		r.cells[p] = info
+	}
+	var ev *accessEv
+	mkEv := func() *accessEv {
+		if ev == nil {
+			ev = &accessEv{cell: p, write: write, tid: t, clock: vc[t], task: r.curTask, locks: r.locks[t], site: e.moduleSite()}
+		}
+		return ev
+	}
+	check := func(old *accessEv) {
+		if old == nil || old.tid == t || old.clock <= vc[old.tid] {
+			return // same thread or ordered before the current access
+		}
+		cur := mkEv()
+		w, o := old, cur
+		if !old.write {
+			w, o = cur, old
+		}
+		key := w.site + "~" + o.site + fmt.Sprint(o.write)
+		if _, ok := r.cand[key]; !ok {
+			r.cand[key] = [2]*accessEv{w, o}
+		}
+	}
+	if write {
+		check(info.w)
+		for _, rd := range info.rs {
+			check(rd)
+		}
+		info.w = mkEv()
+		info.rs = nil
+		return
+	}
+	check(info.w)
+	for _, rd := range info.rs {
+		if rd.tid == t {
+			return
+		}
+	}
+	if len(info.rs) < 4 {
+		info.rs = append(info.rs, mkEv())
+	}
+}
 
 // raceCheck runs at the end of a path and reports every feasible conflicting pair.
 func (e *Engine) raceCheck() {
@@ -174,6 +273,41 @@ func (e *Engine) raceCheck() {
 		return
 	}
 	reported := map[string]bool{}
+	tn := func(ev *accessEv) string {
+		if ev.task < 0 {
+			return "-"
+		}
+		n := r.tasks[ev.task].name
+		if i := strings.Index(n, ":"); i >= 0 {
+			n = n[i+1:]
+		}
+		return n
+	}
+	if os.Getenv("GOSX_RACE_DEBUG") != "" {
+		fmt.Printf("race debug: %d cell candidates, %d map events, tids=%d\n", len(r.cand), len(r.events), r.nextTid)
+		for k := range r.cand {
+			fmt.Println("   cand", k)
+		}
+	}
+	// heap-cell candidates
+	keys := make([]string, 0, len(r.cand))
+	for k := range r.cand {
+		keys = append(keys, k)
+	}
+	sort.Strings(keys)
+	for _, k := range keys {
+		w, o := r.cand[k][0], r.cand[k][1]
+		kind := "read"
+		if o.write {
+			kind = "write"
+		}
+		msg := fmt.Sprintf("unsynchronised access to shared state: write in %s concurrent with %s in %s", shortFn(w.site), kind, shortFn(o.site))
+		if reported[msg] || !e.raceFeasible(w, o) {
+			continue
+		}
+		reported[msg] = true
+		e.report("race", "race:"+tn(w)+"/"+tn(o)+":"+shortFn(w.site)+"~"+shortFn(o.site), msg)
+	}
 	for i := range r.events {
 		for j := i + 1; j < len(r.events); j++ {
 			a, b := &r.events[i], &r.events[j]
@@ -200,16 +334,6 @@ func (e *Engine) raceCheck() {
 			}
 			reported[msg] = true
 			// class: which two messages (or "-" for code outside a task) and which two code sites
-			tn := func(ev *accessEv) string {
-				if ev.task < 0 {
-					return "-"
-				}
-				n := r.tasks[ev.task].name
-				if i := strings.Index(n, ":"); i >= 0 {
-					n = n[i+1:]
-				}
-				return n
-			}
 			class := "race:" + tn(w) + "/" + tn(o) + ":" + shortFn(w.site) + "~" + shortFn(o.site)
 			e.report("race", class, msg)
 		}
@@ -241,23 +365,24 @@ func (e *Engine) raceFeasible(a, b *accessEv) bool {
 	ta, tb := mk("ta"), mk("tb")
 	type sect struct {
 		m        *value
+		shared   bool
 		acq, rel *Term
 	}
 	var sa, sb []sect
-	for _, m := range a.locks {
-		s := sect{m, mk("acqA"), mk("relA")}
+	for _, lh := range a.locks {
+		s := sect{lh.m, lh.shared, mk("acqA"), mk("relA")}
 		e.sol.Assert(tAnd(lt(s.acq, ta), lt(ta, s.rel)))
 		sa = append(sa, s)
 	}
-	for _, m := range b.locks {
-		s := sect{m, mk("acqB"), mk("relB")}
+	for _, lh := range b.locks {
+		s := sect{lh.m, lh.shared, mk("acqB"), mk("relB")}
 		e.sol.Assert(tAnd(lt(s.acq, tb), lt(tb, s.rel)))
 		sb = append(sb, s)
 	}
-	// mutual exclusion per mutex
+	// mutual exclusion per mutex (two read-locked sections of an RWMutex may overlap)
 	for _, x := range sa {
 		for _, y := range sb {
-			if x.m == y.m {
+			if x.m == y.m && !(x.shared && y.shared) {
 				e.sol.Assert(tOr(lt(x.rel, y.acq), lt(y.rel, x.acq)))
 			}
 		}
